@@ -2,7 +2,13 @@
 (* Model-checking instance of SinksCss (C05). *)
 EXTENDS SinksCss
 ClassesDef == AllClasses
+SafeClassesDef == {"Regular", "Enum", "Name"}
+FontOnly == {"FontFamily"}
+BgOnly == {"BackgroundImage"}
 ContextsDef == AllContexts
+FullAlphabet == CssSym
+\* reduced alphabet for the attribution run on the pinned model (its permissive branches accept everything)
+SmallAlphabet == {CDQ, "'", ";", "}", "{", "(", ")", ",", CBSL, "/", "*", "<", ":", "&", "u", "r", "l", "s", "t", "y", "e", "a", "SP", "LF"}
 NoExtra == {}
 SemicolonExtra == {";"}
 =============================================================================
